@@ -494,6 +494,13 @@ func (c *Chain) abciEvents(evs []abci.Event) []map[string]string {
 				}
 			}
 		}
+		if e.Type == "complete_unbonding" {
+			if cs, err := sdk.ParseCoinsNormalized(m["amount"]); err == nil && len(cs) == 1 {
+				m["amt"], m["denom"] = cs[0].Amount.String(), cs[0].Denom
+			} else {
+				m["amt"], m["denom"] = "0", ""
+			}
+		}
 		out = append(out, m)
 	}
 	return out
@@ -507,6 +514,7 @@ var interestingEvent = map[string]bool{
 	"leveragelp_mtp_open": true, "leveragelp_mtp_close": true, "leveragelp_mtp_liquidation": true, "leveragelp_mtp_stop_loss": true,
 	"leveragelp_position_open": true, "leveragelp_position_close": true, "leveragelp_position_liquidation": true, "leveragelp_position_stop_loss": true,
 	"swap_failed": true,
+	"complete_unbonding": true, // staking's end blocker pays matured unbondings back to the delegator
 }
 
 func (c *Chain) emitBlock(specs []TxSpec, res *abci.ResponseFinalizeBlock, hash []byte) {
